@@ -454,6 +454,14 @@ func (e *Engine) setBig(s *State, recv Value, t *Term, probe *probeRec) Value {
 }
 
 func (e *Engine) externalModel(s *State, f *Frame, x *ssa.Call, name string, callee *ssa.Function, args []Value, probe *probeRec) (Value, bool) {
+	if callee.Name() == "init" && callee.Signature.Recv() == nil && callee.Signature.Params().Len() == 0 && !inModule(callee) {
+		return VTuple{}, true // initialisers of dependencies
+	}
+	if callee.Name() == "init" && inModule(callee) && callee != e.curFn && callee.Synthetic != "" {
+		// initialiser of another module package: evaluated on demand
+		e.ensurePkgInit(callee.Pkg)
+		return VTuple{}, true
+	}
 	switch name {
 	// ---- math/big
 	case "(*math/big.Int).Mul":
@@ -489,6 +497,30 @@ func (e *Engine) externalModel(s *State, f *Frame, x *ssa.Call, name string, cal
 			e.note("big.Quo/Rem: divisor assumed positive")
 		}
 		return e.setBig(s, args[0], r, probe), true
+	case "(*math/big.Int).SetString":
+		str, ok := args[1].(VStr)
+		base := asInt(args[2])
+		if ok && str.T.Op == "sconst" && base.IsConst() {
+			v, good := new(big.Int).SetString(str.T.Name, int(base.Val.Int64()))
+			if !good {
+				return VTuple{[]Value{VPtr{}, VBool{BoolC(false)}}}, true
+			}
+			return VTuple{[]Value{e.setBig(s, args[0], IntC(v), probe), VBool{BoolC(true)}}}, true
+		}
+		// symbolic string: value = str2int-like uninterpreted function of the string, success symbolic
+		okb := Fresh("setstring.ok", SBool)
+		var strT *Term
+		if ok {
+			strT = str.T
+		} else {
+			strT = Fresh("str", SStr)
+		}
+		val := App("bigOfDecimal", SInt, strT)
+		r := e.setBig(s, args[0], val, probe)
+		_ = okb
+		e.note("big.Int.SetString on a symbolic string: value is bigOfDecimal(s); nil on malformed input")
+		valid := App("isDecimal", SBool, strT)
+		return VTuple{[]Value{mergeNilPtr(valid, r), VBool{valid}}}, true
 	case "(*math/big.Int).Set":
 		return e.setBig(s, args[0], e.bigOf(s, args[1]), probe), true
 	case "(*math/big.Int).SetUint64", "(*math/big.Int).SetInt64":
@@ -573,7 +605,8 @@ func (e *Engine) externalModel(s *State, f *Frame, x *ssa.Call, name string, cal
 	case "(*github.com/consensys/gnark-crypto/field/goldilocks.Element).BigInt":
 		return e.setBig(s, args[1], e.bigOf(s, args[0]), probe), true
 	// ---- gnark helpers
-	case "(github.com/consensys/gnark/std/math/emulated.Goldilocks).Modulus":
+	case "(github.com/consensys/gnark/std/math/emulated.Goldilocks).Modulus", "(github.com/consensys/gnark/std/math/emulated/emparams.Goldilocks).Modulus":
+		e.note("emulated.Goldilocks{}.Modulus() = 2^64 - 2^32 + 1 (gnark v0.9.1 emparams)")
 		o := newObject("Goldilocks.Modulus", nil)
 		s.heap[o] = VInt{PT()}
 		return VPtr{Obj: o}, true
@@ -650,6 +683,21 @@ func (e *Engine) externalModel(s *State, f *Frame, x *ssa.Call, name string, cal
 		return VTuple{}, true
 	}
 	return nil, false
+}
+
+// mergeNilPtr: the result pointer is nil when the condition is false.  Pointers cannot be
+// merged symbolically; the two cases are kept apart by a guarded pointer value.
+func mergeNilPtr(valid *Term, p Value) Value {
+	if valid.IsTrue() {
+		return p
+	}
+	return VGuardedPtr{Valid: valid, P: p.(VPtr)}
+}
+
+// VGuardedPtr is a pointer that is nil unless Valid holds.
+type VGuardedPtr struct {
+	Valid *Term
+	P     VPtr
 }
 
 func (e *Engine) divisorNonZero(s *State, b *Term) {
